@@ -482,6 +482,14 @@ def oracle_numeric(ctx, case, res):
 def replay(rp):
     tb.import_toolbox(standin=True)
     case = rp["failing_input"]
+    if "run_parameters" in case:
+        res = case_param_override(case)
+        bad = [(q["t"], k, q["got"][k], q["want"][k]) for q in res.get("queries", []) for k in res["vars"]
+               if abs(q["got"][k] - q["want"][k]) > 1e-8 * max(1.0, abs(q["want"][k]))]
+        for b in bad[:6]:
+            print("t = %s, %s: observed %r, exact under the given parameters %r" % b)
+        print("reproduced" if bad else "not reproduced")
+        return 1 if bad else 0
     res = case_scripted(case) if "rates" in case else case_numeric(case)
     print(json.dumps({k: res.get(k) for k in ("t_log", "crossed")})[:1500])
     return 0
